@@ -29,7 +29,7 @@ from vf.ref import quad
 from vf.ref import statmech as ref
 
 ID = 'C01'
-N = {'quick': 4500, 'thorough': 60000}
+N = {'quick': 4500, 'thorough': 150000}
 NT_RULE = ('case = species spec (one model per slot trans/vib/rot/elec/nucl + misc ConstantModes + '
            'reference offsets + options + <=2 re-assignment operations + 3 (T,P) points + one T '
            'interval + one P pair) or a geometry case (g2 molecule + rotation + translation + atom '
